@@ -123,7 +123,7 @@ class _Region:
                 if lab not in T.region_of:
                     T.region_of[lab] = region
                 w = T.want.get(lab)
-                if w and T.visits[lab] in w:
+                if w and (T.visits[lab] in w or 0 in w):
                     d = T.describe(frame)
                     d.update({"label": lab, "visit": T.visits[lab], "region": region})
                     T.fired.append(d)
@@ -143,7 +143,7 @@ class _Region:
             T.visits[lab] += 1
             T.region_of.setdefault(lab, self.region)
             w = T.want.get(lab)
-            if w and T.visits[lab] in w:
+            if w and (T.visits[lab] in w or 0 in w):
                 d = T.describe(self.fr)
                 d.update({"label": lab, "visit": T.visits[lab], "region": self.region})
                 T.fired.append(d)
@@ -199,7 +199,8 @@ def _one_run(task):
             lib = stages.load_library(vname, task["n"])
             out["n_functions"] = len(lib["all_equations"])
             out["n_unique"] = len(lib["unique_equations"])
-    shutil.rmtree(stages.lib_dir(vname), ignore_errors=True)
+    if not os.environ.get("ESRV_KEEP_LIB"):
+        shutil.rmtree(stages.lib_dir(vname), ignore_errors=True)
     return out
 
 
@@ -299,6 +300,23 @@ def select_injections(rec, sel, seen, rng):
     singles = sorted(new + old, key=lambda sp: (_label_key(sp[0][0]), sp[0][1]))
     if sel.get("sample") and len(singles) > sel["sample"]:
         singles = [singles[i] for i in sorted(rng.sample(range(len(singles)), sel["sample"]))]
+    if sel.get("persistent"):
+        # the same step times out EVERY time it is reached (visit 0 = all visits): "any subset of the time-limited steps"
+        plabs = list(labels)
+        if sel["persistent"] != "all":
+            # per region: its first statement, its last four statements and its end, plus a seeded sample of the others
+            ro = rec.get("region_of", {})
+            byreg = {}
+            for lab in labels:
+                byreg.setdefault(ro.get(lab), []).append(lab)
+            chosen = set()
+            for reg, labs in byreg.items():
+                labs = sorted(labs, key=_label_key)
+                chosen |= set(labs[:1] + labs[-4:])
+            rest = [l for l in labels if l not in chosen]
+            chosen |= set(rng.sample(rest, min(int(sel["persistent"]), len(rest))))
+            plabs = [l for l in labels if l in chosen]
+        singles = singles + [[[lab, 0]] for lab in plabs]
     multi = []
     pool = [(lab, k) for lab in labels for k in range(1, min(3, visits[lab]) + 1)]
     for _ in range(sel.get("multi", 0)):
